@@ -155,6 +155,19 @@ pub fn drive(prop: &str, args: &[String]) -> i32 {
             extra_replies.push(r);
         }
     }
+    // ---- grammar-adversarial variants of generated projects: loaded fault-free only (C09; default code generator only)
+    if prop == "C09" && corpus::VARIANT.is_empty() {
+        let n_adv = if opts.tier == "thorough" { 60_000 } else { 3_000 };
+        let adv: Vec<Value> = (0..n_adv)
+            .map(|i| {
+                let p = crate::gen::generate_adversarial(opts.seed, i as u64);
+                json!({"kind": "read", "project": p.id, "inline": crate::gen::project_to_json(&p), "faults": [], "decoys": false, "codegen": true, "adversarial": true})
+            })
+            .collect();
+        let adv_replies = pool::run_all(&cfg, &adv);
+        extra_cases.extend(adv);
+        extra_replies.extend(adv_replies);
+    }
     let mut cases: Vec<Value> = match prop {
         "C09" => c09::plan(&projects, &opts),
         _ => c11::plan(&projects, &opts),
